@@ -853,8 +853,21 @@ def rule_npt_never_exceeds_its_maximum(eng, rep, rule="C18-10.number-of-points-n
         rep.unknown(rule, eng.where(solve), "solve_main call sites / their npt argument not found")
         return
 
-    def mentions_max(e):
-        return KEY in param_keys_in(eng, e)
+    def mentions_max(e, at=None, c=None):
+        if KEY in param_keys_in(eng, e):
+            return True
+        # a local that is nothing but the hoisted parameter read: `max_npt = params("restarts.max_npt")`
+        c = c or cfg
+        for sub in ast.walk(e):
+            if isinstance(sub, ast.Name) and isinstance(sub.ctx, ast.Load) and at is not None:
+                try:
+                    dd = [c.ast_of(x) for x in c.defs_reaching(at, sub.id)]
+                except Exception:
+                    dd = []
+                if len(dd) == 1 and isinstance(dd[0], ast.Assign) and isinstance(dd[0].value, ast.Call) and KEY in param_keys_in(eng, dd[0].value) \
+                        and param_key(eng, dd[0].value) == KEY:
+                    return True
+        return False
 
     def is_increase(st):
         if isinstance(st, ast.AugAssign) and isinstance(st.op, (ast.Add, ast.Mult)) and isinstance(st.target, ast.Name) and st.target.id == npt_name:
@@ -870,7 +883,7 @@ def rule_npt_never_exceeds_its_maximum(eng, rep, rule="C18-10.number-of-points-n
     def is_clamp(st):
         return isinstance(st, ast.Assign) and len(st.targets) == 1 and isinstance(st.targets[0], ast.Name) and st.targets[0].id == npt_name \
             and isinstance(st.value, ast.Call) and isinstance(st.value.func, ast.Name) and st.value.func.id == "min" \
-            and any(mentions_max(a) for a in st.value.args) and (any(ekey(a) == npt_name for a in st.value.args) or any(is_incr_expr(a) for a in st.value.args))
+            and any(mentions_max(a, st) for a in st.value.args) and (any(ekey(a) == npt_name for a in st.value.args) or any(is_incr_expr(a) for a in st.value.args))
 
     def is_incr_expr(a):
         return isinstance(a, ast.BinOp) and isinstance(a.op, ast.Add) and npt_name in mentions(a)
